@@ -1418,6 +1418,18 @@ func directed() []Scenario {
 	return out
 }
 
+// directedWide: more items than fit into 16 bits (audit C14 F1: the index that travels with every item through
+// `in`, `c` and the heap is a plain int in the code and is hard-wired in the model; a narrowing of it - `idx:
+// int(int16(item.idx))` - is invisible to the facts, seen by the pin only, and shows up as a stall / a disorder
+// after 32768 results). One run per variant with 70000 items, no latencies: all results, in order, no error.
+func directedWide() []Scenario {
+	var out []Scenario
+	for _, v := range []string{"stream", "iter"} {
+		out = append(out, Scenario{Kind: "timed", Variant: v, P: 4, B: 8, N: 70000})
+	}
+	return out
+}
+
 // idleSeconds: how long things stay idle - just under / over a minute, an hour, more than a day.
 var idleSeconds = []int{59, 61, 3600, 90000}
 
@@ -1795,6 +1807,17 @@ func TestVerif(t *testing.T) {
 		res.Count("directed")
 		o := check(t, &dir[i], nil, ms, res, env)
 		res.Case(dir[i].key(), nontrivial(&dir[i], o), nil)
+	}
+	wide := directedWide()
+	for i := range wide {
+		if nFatal >= maxFatal {
+			break
+		}
+		t0 := time.Now()
+		res.Count("directed-wide")
+		o := check(t, &wide[i], nil, ms, res, env)
+		res.Case(wide[i].key(), nontrivial(&wide[i], o), nil)
+		res.CountN("directed-wide-ms", int(time.Since(t0).Milliseconds()))
 	}
 	idle := directedIdle()
 	for i := range idle {
